@@ -1004,7 +1004,120 @@ def s_int2ba(v, length=None, endian="big", signed=False):
 
 
 # ------------------------------------------------------------------ bytes model
-class SBytes:
+def _is_octets(o):
+    return isinstance(o, (bytes, bytearray)) or type(o).__name__ in ("SBytes", "ZBytes", "SByteArray")
+
+
+class ByteSeqOps:
+    """methods of bytes / bytearray shared by the octet-string proxies, each expressed through the proxy's own slicing,
+    concatenation and equality (so that they mean the same for bit-level and word-level octets); a comparison of symbolic
+    contents yields a symbolic truth value, which forks where the code under verification branches on it"""
+
+    def startswith(self, prefix, start=None, end=None):
+        if isinstance(prefix, tuple):
+            for q in prefix:
+                if self.startswith(q, start, end):
+                    return True
+            return False
+        if not _is_octets(prefix):
+            raise TypeError("startswith first arg must be bytes or a tuple of bytes, not %s" % type(prefix).__name__)
+        s = self[slice(start, end)]
+        n = len(prefix)
+        if len(s) < n:
+            return False
+        return s[:n] == prefix
+
+    def endswith(self, suffix, start=None, end=None):
+        if isinstance(suffix, tuple):
+            for q in suffix:
+                if self.endswith(q, start, end):
+                    return True
+            return False
+        if not _is_octets(suffix):
+            raise TypeError("endswith first arg must be bytes or a tuple of bytes, not %s" % type(suffix).__name__)
+        s = self[slice(start, end)]
+        n = len(suffix)
+        if len(s) < n:
+            return False
+        return s[len(s) - n:] == suffix
+
+    @staticmethod
+    def _fill(fill):
+        if not _is_octets(fill) or len(fill) != 1:
+            raise TypeError("fill argument must be a byte string of length 1")
+        return fill
+
+    def ljust(self, width, fill=b" "):
+        fill = ByteSeqOps._fill(fill)
+        return self[:] + fill * max(0, width - len(self))
+
+    def rjust(self, width, fill=b" "):
+        fill = ByteSeqOps._fill(fill)
+        return fill * max(0, width - len(self)) + self[:]
+
+    def join(self, parts):
+        return join_octets(self, parts)
+
+    def __rmul__(self, k):
+        return self.__mul__(k)
+
+    def __contains__(self, x):
+        if _is_octets(x):
+            n = len(x)
+            for i in range(len(self) - n + 1):
+                if self[i:i + n] == x:
+                    return True
+            return False
+        for y in self:
+            if y == x:
+                return True
+        return False
+
+
+def join_octets(sep, parts):
+    """bytes.join for parts that may be proxies"""
+    parts = list(parts)
+    for q in parts:
+        if not _is_octets(q):
+            raise TypeError("sequence item: expected a bytes-like object, %s found" % type(q).__name__)
+    if all(isinstance(q, (bytes, bytearray)) for q in parts) and isinstance(sep, (bytes, bytearray)):
+        return bytes(sep).join(parts) if type(sep) is not bytearray else bytearray(sep).join(parts)
+    out = b""
+    for i, q in enumerate(parts):
+        if i and len(sep):
+            out = out + sep
+        if type(q).__name__ == "SByteArray":
+            q = SBytes(q.v).n()
+        out = out + q
+    return out
+
+
+class KBytes(bytes):
+    """a bytes LITERAL of the code under verification (constants of the code objects are re-typed, nothing else of the code
+    changes): behaves as the bytes it is, except that methods taking other octet strings accept proxies"""
+
+    def join(self, parts):
+        parts = list(parts)
+        return join_octets(bytes(self), parts)
+
+    def startswith(self, prefix, *a):
+        if type(prefix).__name__ in ("SBytes", "ZBytes", "SByteArray"):
+            return ByteSeqOps.startswith(SBytes(list(self)), prefix, *a)
+        return bytes.startswith(self, prefix, *a)
+
+    def endswith(self, suffix, *a):
+        if type(suffix).__name__ in ("SBytes", "ZBytes", "SByteArray"):
+            return ByteSeqOps.endswith(SBytes(list(self)), suffix, *a)
+        return bytes.endswith(self, suffix, *a)
+
+    def __deepcopy__(self, memo):
+        return self
+
+    def __reduce__(self):
+        return (bytes, (bytes(self),))
+
+
+class SBytes(ByteSeqOps):
     def __getattr__(self, k):
         from .core import ModelGap
 
